@@ -27,10 +27,16 @@ func c05Bundles() []nhBundle {
 	foreign.Src, foreign.Rpt = "dtn://far/app", "dtn://far/app"
 	foreign.PaySeed = 3
 	foreign.Ext = []gen.BSpec{{Kind: "hop", N: []uint64{30, 2}}}
+	aged := base
+	aged.PaySeed = 4
+	aged.Src, aged.Rpt = "dtn://node/app2", "dtn://node/app2"                          // another endpoint of this node: no ID clash with b0
+	aged.Ext = []gen.BSpec{{Kind: "age", N: []uint64{3000000}, Flags: ref.BReplicate}} // has a clock AND a consistent age block:
+	aged.Time = DtnNow() - 3000000                                                     // created 50 minutes before the scenario starts
 	return []nhBundle{
 		{Spec: base, Local: true, Dest: "dest"},
 		{Spec: zero, Local: true, Dest: "dest", ZeroTime: true},
 		{Spec: foreign, Local: false, Dest: "dest"},
+		{Spec: aged, Local: true, Dest: "dest"},
 	}
 }
 
@@ -44,11 +50,11 @@ func c05Def() nhCheckDef {
 
 func c05Alphabet() []nhEvent {
 	return []nhEvent{
-		{Op: "submit", B: 0}, {Op: "agent", B: 0}, {Op: "submit", B: 1}, {Op: "receive", B: 2, P: "r1", Q: "r1"},
+		{Op: "submit", B: 0}, {Op: "agent", B: 0}, {Op: "submit", B: 1}, {Op: "submit", B: 3}, {Op: "receive", B: 2, P: "r1", Q: "r1"},
 		{Op: "up", P: "dest"}, {Op: "up", P: "r1"}, {Op: "up", P: "r2"},
 		{Op: "down", P: "dest"}, {Op: "down", P: "r1"},
 		{Op: "fail", P: "dest"}, {Op: "ok", P: "dest"}, {Op: "fail", P: "r1"}, {Op: "fail", P: "r2"}, {Op: "ok", P: "r2"},
-		{Op: "retry"}, {Op: "clean"}, {Op: "advance", S: 1}, {Op: "advance", S: 3601}, {Op: "restart"},
+		{Op: "retry"}, {Op: "clean"}, {Op: "advance", S: 1}, {Op: "advance", S: 1801}, {Op: "advance", S: 3601}, {Op: "restart"},
 	}
 }
 
@@ -114,26 +120,41 @@ func c05Oracle(r *nhRun) (string, string) {
 
 func runC05(r *ev.Run, thorough bool) int {
 	def := c05Def()
-	depth, budget := 3, 6000
+	depth, budget := 3, 14000
 	if thorough {
 		depth, budget = 5, 400000
 	}
 	var st nhBFSStats
+	// BFS roots: the initial state and two non-initial ones (two relays up with one failing; failing destination up)
+	roots := [][]nhEvent{
+		nil,
+		{{Op: "up", P: "r1"}, {Op: "up", P: "r2"}, {Op: "fail", P: "r1"}},
+		{{Op: "up", P: "dest"}, {Op: "fail", P: "dest"}, {Op: "up", P: "r1"}},
+	}
 	for si := range def.Scenarios {
-		d := depth
-		if !thorough && si < 2 {
-			d = depth + 1 // epidemic and spray one level deeper in the quick tier
-		}
-		per := nhBFSStats{}
-		nhExplore(r, "C05", "c05", si, c05Alphabet(), d, budget, &per)
-		r.Add("transitions_"+def.Scenarios[si].Cfg.Algo, int64(per.Transitions))
-		st.States += per.States
-		st.Transitions += per.Transitions
-		st.Validated += per.Validated
-		st.Outcomes += per.Outcomes
-		st.SendsSeen += per.SendsSeen
-		if per.MaxDepth > st.MaxDepth {
-			st.MaxDepth = per.MaxDepth
+		for ri, root := range roots {
+			d := depth
+			if !thorough {
+				// quick: every algorithm from the initial state to depth 3; epidemic additionally from the
+				// non-initial roots (one level deeper from the two-relay root)
+				if si > 0 && ri > 0 {
+					continue
+				}
+				if si == 0 && ri == 1 {
+					d = depth + 1
+				}
+			}
+			per := nhBFSStats{}
+			nhExplore(r, "C05", "c05", si, root, c05Alphabet(), d, budget, &per)
+			r.Add("transitions_"+def.Scenarios[si].Cfg.Algo, int64(per.Transitions))
+			st.States += per.States
+			st.Transitions += per.Transitions
+			st.Validated += per.Validated
+			st.Outcomes += per.Outcomes
+			st.SendsSeen += per.SendsSeen
+			if per.MaxDepth > st.MaxDepth {
+				st.MaxDepth = per.MaxDepth
+			}
 		}
 	}
 	r.Add("sends_observed", int64(st.SendsSeen))
